@@ -92,6 +92,7 @@ static const std::vector<int>* g_prefix = nullptr;
 static const Options* g_opt = nullptr;
 static const std::function<void(const Trace&)>* g_onFatal = nullptr;
 static Stats g_stats;
+static bool g_exploring = true;
 static __thread Thr* tls_me = nullptr;
 
 static inline uint64_t mix(uint64_t h, uint64_t v) {
@@ -147,6 +148,7 @@ static uint64_t stateHash() {
 }
 
 static int nextChoice(int n, bool isSched, bool runningEnabled) {
+    if (!g_exploring) return 0;
     size_t idx = g_trace->points.size();
     int c = 0;
     if (g_prefix && idx < g_prefix->size()) {
@@ -234,6 +236,7 @@ static void* trampoline(void* p) {
 
 // ------------------------------------------------------------------ public services
 bool active() { return g_active && tls_me; }
+void setExploring(bool on) { g_exploring = on; }
 int self() { return tls_me ? tls_me->id : -1; }
 void yield(const char* tag) { if (!active()) return; g_stats.yields++; point(tls_me, strHash(tag)); }
 void log(const std::string& s) { if (g_trace) g_trace->log.push_back(s); }
@@ -253,7 +256,7 @@ Trace run(const std::vector<int>& prefix, const std::function<void()>& body, con
     g_trace = &tr; g_prefix = &prefix; g_opt = &opt; g_onFatal = &onFatal;
     Thr& m = thr[0];
     m = Thr(); m.id = 0; memset(m.vc, 0, sizeof m.vc); m.vc[0] = 1; m.real = pthread_self();
-    nThr = 1; tls_me = &m; g_active = true;
+    nThr = 1; tls_me = &m; g_active = true; g_exploring = true;
     body();
     g_active = false; tls_me = nullptr;
     for (int i = 1; i < nThr; ++i)
